@@ -1,8 +1,10 @@
 """C09: connection-level check (see DESIGN section 6 / C09): scenario families on the real endpoints, recorded traces
 validated against RSocket.tla by TLC; design-level model checking of the same monitors in RSocketMC.tla."""
-from . import conn, families, mc
+from . import conn, families, mc, sourcemodel
 
 
 def run(v):
+    # cancel() on the library's own sources at every point, also before the loop ran (Source.tla: NothingAfterCancel)
+    sourcemodel.check(v, 'C09')
     mc.run_for(v, 'C09')
     conn.check(v, 'C09', families.FAMILIES['C09'])
